@@ -109,6 +109,18 @@ def special_scenarios():
             sc["cmds"][0].update({"kind": "rq0418", "idx": 5})
             sc["mode"] = mode
             out.append(sc)
+    # an IDLE protocol, several callers of different priorities arriving in ONE loop iteration, the lowest priority first: they start in priority order
+    for lifo in (False, True):
+        sc = one(0, 20_000_000, default={"lat": 0, "fail": False, "echo": G, "rply": None}, lifo=lifo)
+        sc["cmds"] = [{"kind": "rq30c9", "idx": i, "prio": p, "max_retries": 0, "timeout": 20_000_000, "wfr": False} for i, p in enumerate((4, 0, -2, -4, 0))]
+        sc["events"] = [(0, ("made",))] + [(64 * G, ("call", i)) for i in range(5)]
+        sc["burst_when_idle"] = True
+        out.append(sc)
+    # the loss of the connection is reported TWICE (the transport's callback is known to be invoked twice): while a command waits for its echo / its
+    # reply, and when idle
+    out.append(one(3, 20_000_000, events=[(2 * G, ("lost", None)), (3 * G, ("lost", None))]))
+    out.append(one(3, 20_000_000, wfr=True, default={"lat": 0, "fail": False, "echo": 2 * G, "rply": None}, events=[(5 * G, ("lost", "transport")), (5 * G, ("lost", "transport")), (9 * G, ("lost", None))]))
+    out.append(one(0, 20_000_000, default={"lat": 0, "fail": False, "echo": G, "rply": None}, events=[(40 * G, ("lost", None)), (41 * G, ("lost", None))]))
     for kind in (None, "transport", "serial", "oserror"):
         out.append(one(3, 20_000_000, events=[(2 * G, ("lost", kind))]))
         out.append(one(3, 20_000_000, wfr=True, default={"lat": 0, "fail": False, "echo": 2 * G, "rply": None}, events=[(5 * G, ("lost", kind))]))
@@ -381,6 +393,13 @@ def oracle(ctx: Ctx, pid: str, s, tr, st, qs, info) -> None:
                                       {**case, "cmd": i, "gaps_us": gaps}, "schedule")
         # one in flight / start order
         fw = {i: w[0] for i, w in writes.items() if w}
+        if s.get("burst_when_idle") and len(fw) == len(cmds):
+            sgn = -1 if s["lifo"] else 1      # callers of one instant run in the tie policy's order; all are in the buffer before the first one starts
+            want = sorted(range(len(cmds)), key=lambda i: (cmds[i]["prio"], sgn * i))
+            got = sorted(fw, key=lambda i: fw[i])
+            if got != want:
+                ctx.violation("start-order:burst-on-an-idle-protocol", "callers that arrived in one loop iteration on an idle protocol did not start in priority order (first come first served within a priority)",
+                              {**case, "started_in_order": got, "expected": want, "priorities": [c["prio"] for c in cmds]}, "schedule")
         for j, tj in fw.items():
             for i, ti in fw.items():
                 if ti < tj and dones[i] and dones[i][0][1] > tj and not slow:
